@@ -2,7 +2,10 @@
 from vlib.common import CheckerError, harness_many
 
 META = {
-    "level": "exploration",
+    "level": "other",
+    "structural": "Deductive (unbounded): simplifier.simplify_inv_subs is verified from its AST for chains of any length over an abstract monoid of parameter maps: the "
+                  "conditional fold of the kept entries equals the composition of the original chain, only entries listed in all_dup (self-inverse by precondition) are "
+                  "deleted, so 'nan' is never deleted, and the result is None exactly when nothing is kept; the three template families of get_all_dup are proved to be involutions.",
     "text": "Bounded, on the real code. Round trip: every substitution template the simplifier can record for up to 4 parameters (all rows of the "
             "pairwise-combination table with both targets, the constant-absorption inverses for integers -3..3 and six other numbers, sign flips, "
             "reciprocals, swaps in both key orders, permutations, reorderings, and the 'nan' marker: 482 written strings, built with the writer's "
@@ -17,7 +20,7 @@ META = {
             "get_all_dup entry is an involution and both key orders of each swap are listed. Both oracles are tested with a canary.",
     "note": "Bounded by the template set (<= 4 parameters, listed numbers), chain length and 4 ranks on the MPI stand-in; values are compared "
             "numerically (1e-9 relative), not symbolically. The deductive treatment of simplify_inv_subs planned in DESIGN.md is not part of this check.",
-    "technique": "exhaustive enumeration of templates/chains on the real reader and canceller, numeric function comparison with mpmath, multi-process MPI stand-in",
+    "technique": "contract-based deductive verification of the canceller (AST->VC->SMT, ghost fold) + exhaustive enumeration of templates/chains on the real reader and canceller, numeric function comparison with mpmath, multi-process MPI stand-in",
 }
 CHECKER = "./bin/check C17 (harness/rt_c17.py: load_subs on forked ranks, simplify_inv_subs over all chains)"
 
@@ -27,6 +30,17 @@ def nospace(s):
 
 
 def check(run):
+    from vlib import deductive as D
+    from contracts import c_simplifier
+    dst, dfailed, deng = D.verify_function(run, "generation/simplifier.py", "simplify_inv_subs", c_simplifier.simplify_inv_subs_contract, timeout_ms=8000,
+                                           note="composition preserved in an abstract monoid of parameter maps; ghost conditional fold")
+    if dst != "unsupported" and D.canary(run, "generation/simplifier.py", "simplify_inv_subs", c_simplifier.simplify_inv_subs_contract) is False:
+        raise RuntimeError("canary verified: engine vacuous on simplify_inv_subs")
+    D.prove_lemmas(run, "get_all_dup templates are involutions", c_simplifier.involution_lemmas())
+    run.assume("lemma library (assumed): the fold of a filtered list equals the conditional fold of the list (fusion), uniqueness of the conditional fold",
+               "parameter maps form a monoid under composition (associative, identity); strings are abstract tokens denoting maps",
+               "precondition of simplify_inv_subs: every element of all_dup is self-inverse (get_all_dup: three involution lemmas proved, enumeration bounded)")
+    run.trust("pyvc", "z3 5.1.0")
     quick = run.tier == "quick"
     allP = [1, 2, 3, 4]
     if quick:
@@ -99,6 +113,9 @@ def check(run):
     run.assume("A-mpi (stand-in delivers scatter/gather in rank order like MPI)", "A-hash",
                "A-num: two substitutions that agree to 1e-9 at five mixed-sign parameter points are the same function")
     run.trust("mpmath", "oracle.sym_eval", "independent parser rt_gen.load_chain", "MPI stand-in /verif/stubs/mpi4py")
-    return run.finish(META["level"], META["text"], CHECKER,
+    if dfailed and not run.violations:
+        from checks.C14 import report_unproved
+        report_unproved(run, dfailed, False, "simplifier.simplify_inv_subs")
+    return run.finish("other", META["text"], CHECKER,
                       rule="round trip: cases = rows read back and compared (a row is re-counted for each rank count and reader mode), distinct = "
                            "different written chains; cancellation: cases = chains enumerated (+ involution/listing checks), distinct = chains with at least one cancelled pair")
